@@ -22,6 +22,8 @@ EXPLANATION = (
 
 
 def run(ctx: Ctx) -> None:
+    from .c07 import rule_wrappers
+    rule_wrappers(ctx)  # the mixed-stabilizer gate methods are what a noisy simulation runs; they must agree with the pure ones
     from ..rules import memo as _memo
     _memo.rule_memo_sound(ctx, ['graphiq/noise/noise_models.py', 'graphiq/backends/compiler_base.py'])
     repo = ctx.repo
